@@ -478,7 +478,7 @@ MANIFEST = {
              "(ValueError) every condition for which ID* answers Zero, in particular every condition that violates "
              "effectiveness, before doing anything else; the model is defined for every fuel, an answer reached with some fuel "
              "is not changed by more fuel; every leaf of a returned estimand is a single-world interventional term (C06 part); "
-             "error taxonomy of the first lines. Soundness of the returned value and of Zero has NO theorem (it inherits F10 from "
+             "Zero from line 3 (inconsistent joint event) is sound in every compatible functional SCM (by C18's cg_prob); the final division is fully modelled. Soundness of the returned value and of Zero from inside ID* has NO theorem (it inherits F10 from "
              "ID* and adds F11 and the unstarred exchange of conditions); the check decides it by correspondence with the real "
              "code plus exact evaluation of P(outcomes, conditions)/P(conditions) on sampled functional SCMs; every wrong answer is "
              "attributed to the first step of IDC*'s chain of claims that exact evaluation shows to be broken (reassociation, "
